@@ -697,8 +697,8 @@ def configs(tier):
     # several templates sharing one backend; URIs that differ only in punctuation
     for uris in (["t17a", "t17b"], ["t-x", "t_x"]):
         for be in backends[:2]:
-            cfgs.append({"prog": {"cached": ["d"], "key": "default", "flags": "", "args": "none"}, "backend": be, "uris": uris, "max_depth": 30})
-            cfgs.append({"prog": {"cached": ["page", "b"], "key": "default", "flags": "", "args": "none"}, "backend": be, "uris": uris, "max_depth": 30})
+            cfgs.append({"prog": {"cached": ["d"], "key": "default", "flags": "", "args": "none"}, "backend": be, "uris": uris, "max_depth": 30 if tier != "quick" else 8})
+            cfgs.append({"prog": {"cached": ["page", "b"], "key": "default", "flags": "", "args": "none"}, "backend": be, "uris": uris, "max_depth": 30 if tier != "quick" else 8})
     return cfgs
 
 
